@@ -160,9 +160,41 @@ def run(ctx):
         outs = ctx.driver.run(reqs) if reqs else []
         for req, (replay, exp), out in zip(reqs, metas, outs):
             ctx.count("model_requests")
+            if isinstance(exp, tuple) and exp[0] == "plan":
+                # exact tie of a planner: the emitted step list (in order) and the outcome of applying it
+                _, name, st, steps, final = exp
+                ctx.count(f"plan_tie:{name}")
+                if st == "ok":
+                    got = out.get("ok")
+                    if not isinstance(got, list) or got[0] != steps:
+                        ctx.mismatch(f"plan({name}): step list", replay, steps, out)
+                    elif got[1].get("ok") != final:
+                        ctx.mismatch(f"plan({name}): document after the planned steps", replay, "recorded document",
+                                     got[1] if "err" in got[1] else "different document")
+                    else:
+                        ctx.count(f"plan_tie_steps:{name}", len(steps))
+                        if len(steps) >= 2:
+                            ctx.count(f"plan_tie_multi:{name}")
+                else:
+                    got = out.get("ok")
+                    err = out.get("err") if got is None else (got[1].get("err") if isinstance(got, list) else None)
+                    if err != st:
+                        ctx.mismatch(f"plan({name}): outcome", replay, st, out if got is None else got[1])
+                continue
             if out.get("ok") != exp:
                 ctx.mismatch("apply(emitted step)", replay, "recorded document", out if "err" in out else "different document")
         del reqs[:], metas[:]
+
+    def plan_request(name, args, d):
+        """the driver request that runs the model's planner on the same arguments (None: planner not modelled)"""
+        if name == "add_mark":
+            f, t, m = args
+            return {"op": "planAddMark", "s": info.lean_id, "doc": info.node(d), "from": f, "to": t, "mark": info.mark(m)}
+        if name == "remove_mark":
+            f, t, what = args
+            sel = ["all"] if what is None else (["type", info.mid[what.name]] if isinstance(what, MarkType) else ["exact", info.mark(what)])
+            return {"op": "planRemoveMark", "s": info.lean_id, "doc": info.node(d), "from": f, "to": t, "sel": sel}
+        return None
 
     fam = schemas.family()
     kinds = ["add_mark", "remove_mark", "add_node_mark", "remove_node_mark", "set_node_attribute",
@@ -199,6 +231,11 @@ def run(ctx):
                 ctx.case([name, info.name, d.to_json(), ops.describe(name, args)["args"]], nontrivial=added > 0,
                          sample={"op": name, "schema": info.name, "args": ops.describe(name, args)["args"], "outcome": st, "steps": added})
                 ctx.count(f"{name}:{st}")
+                preq = plan_request(name, args, d) if st != "hang" else None
+                if preq is not None:
+                    reqs.append(preq)
+                    metas.append((replay, ("plan", name, st, [info.step(s) for s in tr.steps] if st == "ok" else None,
+                                           info.node(tr.doc) if st == "ok" else None)))
                 if st in ("internal", "hang"):
                     ctx.violation(name + "-internal", f"{name} died with an internal error: {val}", replay)
                     continue
